@@ -268,3 +268,118 @@ def c03_outbound(rng, sid, nscen):
         steps.append(BARRIER)
         out.append({"id": "%s-out%d" % (sid, i), "cfg": {"mode": "overlap", "qq0": True, "maxinflight": maxinfl, "maxqueued": 1000}, "steps": steps})
     return out
+
+
+def _vbi(n):
+    return 1 if n <= 127 else 2 if n <= 16383 else 3 if n <= 2097151 else 4
+
+
+def pub_size(topic, qos, plen, v5=True):
+    """size of a PUBLISH without properties (v5: property length byte 0)"""
+    rem = 2 + len(topic) + (2 if qos > 0 else 0) + (1 if v5 else 0) + plen
+    return 1 + _vbi(rem) + rem
+
+
+def pad_for(topic, qos, target, v5=True):
+    """payload length that makes the PUBLISH exactly `target` bytes (None if impossible)"""
+    for plen in range(0, target + 1):
+        if pub_size(topic, qos, plen, v5) == target:
+            return plen
+    return None
+
+
+def c13_limits(rng, sid, nscen):
+    out = []
+    for i in range(nscen):
+        fam = "ABCDE"[i % 5]
+        cfg = {"mode": "overlap", "qq0": True}
+        steps = []
+        if fam == "A":      # outbound: client's Maximum Packet Size
+            M = rng.choice([24, 40, 127, 128, 129, 200])
+            qs = rng.randrange(3)
+            steps = [connect(1, "s", 5, maxpkt=M), sub(1, [{"n": "m/#", "qos": qs}]), connect(2, "p", rng.choice([4, 5])),
+                     connect(3, "free", 5), sub(3, [{"n": "m/#", "qos": 2}])]
+            n = 0
+            for d in rng.sample([-1, 0, 1, 2, 30, -10, -3], 5):
+                n += 1
+                q = rng.randrange(3)
+                fq = min(q, qs)
+                topic = "m/t"
+                plen = pad_for(topic, fq, M + d)
+                if plen is None or plen < 3:
+                    continue
+                steps.append(pub(2, topic, q, "z%d" % n, pad=plen, fq=fq))
+                steps.append(BARRIER)
+        elif fam == "B":    # outbound: topic aliases towards a client with Topic Alias Maximum A
+            A = rng.choice([1, 2, 3])
+            steps = [connect(1, "s", 5, aliasmax=A), sub(1, [{"n": "al/#", "qos": 1}]), connect(2, "p", 5)]
+            for n in range(rng.randrange(6, 14)):
+                steps.append(pub(2, "al/" + rng.choice("abcd"), rng.randrange(2), "y%d" % n))
+            steps.append(BARRIER)
+        elif fam == "C":    # inbound: Topic Alias Maximum advertised by the broker
+            X = rng.choice([1, 2, 5, 10])
+            cfg["srvaliasmax"] = X
+            cfg["srvrecvmax"] = rng.choice([1, 3, 100, 65535])
+            steps = [connect(1, "s", 5), sub(1, [{"n": "in/#", "qos": 1}]), connect(2, "p", 5)]
+            bound = {}
+            n = 0
+            for _ in range(rng.randrange(4, 10)):
+                n += 1
+                a = rng.choice([1, X, max(1, X - 1), rng.randrange(1, X + 1)])
+                if a in bound and rng.random() < 0.5:
+                    steps.append(pub(2, bound[a], rng.randrange(2), "x%d" % n, alias=a, notopic=True))
+                else:
+                    bound[a] = "in/" + rng.choice("abc")
+                    steps.append(pub(2, bound[a], rng.randrange(2), "x%d" % n, alias=a))
+            steps.append(BARRIER)
+            if rng.random() < 0.6:
+                bad = rng.choice([0, X + 1, 65535, "unbound"])
+                n += 1
+                if bad == 0:
+                    steps.append(pub(2, "in/a", 1, "x%d" % n, alias=0, notopic=True))
+                elif bad == "unbound":
+                    free = [a for a in range(1, X + 1) if a not in bound]
+                    if free:
+                        steps.append(pub(2, "in/a", 1, "x%d" % n, alias=free[0], notopic=True))
+                else:
+                    steps.append(pub(2, "in/a", 1, "x%d" % n, alias=bad))
+                steps.append({"op": "sleep", "ms": 30})
+                steps.append(BARRIER)
+        elif fam == "D":    # inbound: Receive Maximum advertised by the broker
+            R = rng.choice([1, 2, 3, 10])
+            cfg["srvrecvmax"] = R
+            steps = [connect(1, "s", 5), sub(1, [{"n": "rq/#", "qos": 2}]), connect(2, "p", 5)]
+            for n in range(R):
+                steps.append(pub(2, "rq/a", 2, "w%d" % n, pid=n + 1, norel=True))
+            if rng.random() < 0.5:
+                # compliant: complete one exchange, then publish again
+                steps.append({"op": "ack", "k": 2, "t": "pubrel", "pid": 1})
+                steps.append(pub(2, "rq/a", rng.choice([1, 2]), "w%d" % R, pid=1, norel=True))
+                steps.append(BARRIER)
+            else:
+                steps.append(BARRIER)
+                steps.append(pub(2, "rq/a", rng.choice([1, 2]), "w%d" % R, pid=R + 1, norel=True))
+                steps.append({"op": "sleep", "ms": 30})
+                steps.append(BARRIER)
+        else:               # inbound: Maximum Packet Size advertised by the broker
+            P = rng.choice([40, 127, 128, 129, 300])
+            cfg["srvmaxpkt"] = P
+            steps = [connect(1, "s", 5), sub(1, [{"n": "pk/#", "qos": 1}]), connect(2, "p", 5)]
+            n = 0
+            for d in [-2, -1, 0]:
+                n += 1
+                q = rng.randrange(3)
+                plen = pad_for("pk/t", q, P + d)
+                if plen is not None and plen >= 3:
+                    steps.append(pub(2, "pk/t", q, "v%d" % n, pad=plen))
+            steps.append(BARRIER)
+            if rng.random() < 0.6:
+                q = rng.randrange(3)
+                plen = pad_for("pk/t", q, P + rng.choice([1, 2, 50]))
+                if plen is not None:
+                    steps.append(pub(2, "pk/t", q, "v9", pad=plen))
+                    steps.append({"op": "sleep", "ms": 30})
+                    steps.append(BARRIER)
+                steps.append(BARRIER)
+        out.append({"id": "%s-lim%s%d" % (sid, fam, i), "cfg": cfg, "steps": steps})
+    return out
